@@ -43,6 +43,8 @@ func ofbaseEnc(sc J, obs J) {
 		switch op[0].(string) {
 		case "u8":
 			e.PutUint8(toBytes(op[1])[0])
+		case "ch":
+			e.PutChar(toBytes(op[1])[0])
 		case "u16":
 			e.PutUint16(binary.BigEndian.Uint16(toBytes(op[1])))
 		case "u32":
@@ -70,6 +72,8 @@ func ofbaseEnc(sc J, obs J) {
 		switch op[0].(string) {
 		case "u8":
 			v = []byte{d.ReadUint8()}
+		case "ch":
+			v = []byte{d.ReadByte()}
 		case "u16":
 			v = make([]byte, 2)
 			binary.BigEndian.PutUint16(v, d.ReadUint16())
@@ -132,7 +136,7 @@ func ofbaseDec(sc J, obs J) {
 			stack = stack[:len(stack)-1]
 		}
 		d = stack[len(stack)-1]
-		steps = append(steps, []interface{}{d.Offset(), d.BaseOffset(), d.Length(), byteList(v)})
+		steps = append(steps, []interface{}{d.Offset(), d.BaseOffset(), d.Length(), byteList(v), byteList(d.Bytes())})
 	}
 	obs["steps"] = steps
 }
